@@ -15,14 +15,15 @@ import tempfile
 from pathlib import Path
 
 from ..core import Family
-from .c03 import CERT_FP, CERTS, HOSTS, SHM, Runner, expected_steps
+from ..sim.client_storefault import store_fault
+from .c03 import CERT_FP, CERTS, HOSTS, SHM, Runner, expected_steps, spell, variant_id
 
 ID = "C11"
 READY = True
 LEAN_TARGETS = ["NauyacaVerif.Props.C11"]
 THEOREMS = [f"NauyacaVerif.C11.{t}" for t in (
     "send_after_verify", "send_position", "verify_fail_sends_nothing", "accepted_request_intact", "history_guarded",
-    "history_send_position", "history_fail_silent", "chain_trace", "redirect_guarded")]
+    "history_send_position", "history_fail_silent", "chain_trace", "redirect_guarded", "store_fault_sends_nothing")]
 EXTRACT: list[str] = []
 ASSUMPTIONS = [
     "parameters of the model (not verified): the TLS handshake (everything before create_connection returns is asyncio's and OpenSSL's; the ClientHello carries the host name as SNI, which is part of the handshake and outside this property), X.509 parsing, SHA-256, SQLite",
@@ -41,6 +42,17 @@ TECHNIQUE = "interactive theorem proving (Lean 4) + model-based differential tes
 SITUATIONS = ["unpinned", "pinned", "changed", "changed-after-ok", "hostile", "patched-raise", "patched-none"]
 OPS = ["get", "getq", "upload", "delete", "chain"]
 MODES = ["eager", "lazy", "never"]
+# further dimensions of a scenario (all optional in a case; the defaults are the plain scenario):
+#   warm        the SAME client object first completes a verified request elsewhere, shown the certificate the target will present:
+#               "other-port" = same host name, other port; "other-host" = other host name, same port
+#   chain_same  the redirecting hop is the target's host name on the other port and presents the target's certificate
+#   pin_via     how the pin entered the store: TOFUDatabase.trust, or import_toml with the fingerprint spelled
+#               canonically / "sha256:<HEX>" / "SHA256:<hex>" / "SHA256:<HEX>"
+#   fault       the pin store fails during the call: "select" (pin lookup raises OperationalError), "locked" (a real
+#               EXCLUSIVE lock held by another connection), "write" (INSERT/UPDATE/commit fail: trust of a first use)
+WARMS = [None, "other-port", "other-host"]
+PIN_VIAS = ["trust", "import", "import-0", "import-1", "import-2"]
+FAULTS = [None, "select", "locked", "write"]
 
 
 def content_of(case) -> bytes:
@@ -52,7 +64,10 @@ def content_of(case) -> bytes:
 
 
 def should_fail(case) -> bool:
-    return case["tofu"] and case["situation"] not in ("unpinned", "pinned")
+    """verification cannot pass: changed / unreadable certificate, or the pin cannot be looked up"""
+    if not case["tofu"]:
+        return False
+    return case["situation"] not in ("unpinned", "pinned") or case.get("fault") in ("select", "locked")
 
 
 class Scenarios(Family):
@@ -68,21 +83,59 @@ class Scenarios(Family):
         thorough = n > self.quick_n
         sizes = [0, 1, 7, 1000, 16384, 70000] + ([262144, 1048576] if thorough else [])
         count = 0
+
+        def extra(sit, op):
+            """the further dimensions, compatible with the situation"""
+            d = {"warm": None, "chain_same": False, "pin_via": "trust", "fault": None}
+            r = rng.random()
+            if r < 0.25:
+                d["warm"] = rng.choice(WARMS[1:])
+            if op == "chain" and rng.random() < 0.5:
+                d["chain_same"] = True
+            if sit in ("pinned", "changed", "hostile", "patched-raise", "patched-none") and rng.random() < 0.5:
+                d["pin_via"] = rng.choice(PIN_VIAS[1:])
+            if rng.random() < 0.2:
+                d["fault"] = rng.choice(["select", "locked"]) if sit != "unpinned" or rng.random() < 0.6 else "write"
+            return d
+
+        # deterministic witness grid of the further dimensions (shared out over the shards, never cut)
+        wit = []
+        for op in ("getq", "upload", "chain"):
+            for warm in WARMS[1:]:
+                wit.append({"situation": "changed", "op": op, "warm": warm, "chain_same": op == "chain"})
+            for via in PIN_VIAS[1:]:
+                for sit in ("pinned", "changed"):
+                    wit.append({"situation": sit, "op": op, "pin_via": via})
+            for fault in ("select", "locked"):
+                for sit in ("unpinned", "pinned", "changed"):
+                    wit.append({"situation": sit, "op": op, "fault": fault})
+            wit.append({"situation": "unpinned", "op": op, "fault": "write"})
+        for i, wcase in enumerate(self.share(wit)):
+            count += 1
+            base = {"tofu": True, "mode": MODES[i % 3], "cert": [0, 1, 2, 4, 5][i % 5], "size": 1000 if wcase["op"] == "upload" else 0,
+                    "token": "s3cr3t-token", "host": i % 3, "cseed": i, "warm": None, "chain_same": False, "pin_via": "trust", "fault": None}
+            base.update(wcase)
+            yield base
         # systematic part: situation x operation x reading mode, a different random half of the grid in every shard
         grid = [(sit, op, mode) for sit in SITUATIONS for op in OPS for mode in MODES]
         rng.shuffle(grid)
-        for sit, op, mode in grid[: max(1, n // 2)]:
+        for sit, op, mode in grid[: max(1, n // 3)]:
             count += 1
-            yield {"tofu": True, "situation": sit, "op": op, "mode": mode, "cert": rng.choice([0, 1, 2, 4, 5]), "size": rng.choice(sizes[1:5]) if op == "upload" else 0,
-                   "token": "s3cr3t-token", "host": rng.randrange(3), "cseed": rng.randrange(1000)}
+            c = {"tofu": True, "situation": sit, "op": op, "mode": mode, "cert": rng.choice([0, 1, 2, 4, 5]), "size": rng.choice(sizes[1:5]) if op == "upload" else 0,
+                 "token": "s3cr3t-token", "host": rng.randrange(3), "cseed": rng.randrange(1000)}
+            c.update(extra(sit, op))
+            yield c
         while count < n:
             count += 1
             op = rng.choice(OPS)
+            sit = rng.choice(SITUATIONS)
             sz = rng.choice(sizes) if op == "upload" else 0
             if op == "upload" and rng.random() < 0.3:
                 sz = rng.randint(0, 100000)
-            yield {"tofu": rng.random() < 0.93, "situation": rng.choice(SITUATIONS), "op": op, "mode": rng.choice(MODES), "cert": rng.choice([0, 1, 2, 4, 5]),
-                   "size": sz, "token": rng.choice([None, "tok", "s3cr3t-" + "x" * rng.randrange(0, 40)]), "host": rng.randrange(3), "cseed": rng.randrange(1000)}
+            c = {"tofu": rng.random() < 0.93, "situation": sit, "op": op, "mode": rng.choice(MODES), "cert": rng.choice([0, 1, 2, 4, 5]),
+                 "size": sz, "token": rng.choice([None, "tok", "s3cr3t-" + "x" * rng.randrange(0, 40)]), "host": rng.randrange(3), "cseed": rng.randrange(1000)}
+            c.update(extra(sit, op))
+            yield c
 
     # what the peer should receive if (and only if) verification passes -- straight from the protocol definitions
     def request_bytes(self, case, url: str, kind: str) -> bytes:
@@ -102,6 +155,35 @@ class Scenarios(Family):
         # unreadable certificate: against a pinned host and (the historical defect) against an unpinned one
         return sit in ("hostile", "patched-raise", "patched-none") and case.get("cseed", 0) % 2 == 0
 
+    @staticmethod
+    def warm_key(case):
+        """(host, port) of the preliminary verified request of the same client, or None"""
+        w = case.get("warm")
+        if w == "other-port":
+            return (case["host"], 0)
+        if w == "other-host":
+            return ((case["host"] + 2) % 3, 1)
+        return None
+
+    def pin_id(self, case):
+        """(certificate index the target is pinned to, fingerprint id as stored) or None when unpinned at the start"""
+        sit = case["situation"]
+        if sit == "pinned":
+            pc = case["cert"]
+        elif sit == "changed-after-ok" or not self.prepinned_other(case):
+            return None
+        else:
+            pc = (case["cert"] + 1) % 3
+        via = case.get("pin_via", "trust")
+        return pc, (variant_id(pc, int(via[-1])) if via.startswith("import-") else CERT_FP[pc])
+
+    def hop_fault(self, case, hop_index: int) -> bool:
+        """does the store fault make verification of this hop impossible (as the code stands)?"""
+        f = case.get("fault")
+        if not f or not case["tofu"]:
+            return False
+        return hop_index == 0          # "select"/"locked" hit the first lookup; "write" is generated for first uses only
+
     def hops_of(self, case):
         sit = case["situation"]
         cert = 3 if sit == "hostile" else case["cert"]
@@ -109,6 +191,9 @@ class Scenarios(Family):
         target = [case["host"], 1, cert, patch]
         if case["op"] == "chain":
             # A (other port, own certificate, unpinned -> first use) redirects to the target
+            if case.get("chain_same"):
+                # the redirecting hop is the SAME host name on the other port and shows the certificate the target will show
+                return [[case["host"], 0, case["cert"], ""], [target[0], target[1], target[2], ""]], patch
             return [[(case["host"] + 1) % 3, 0, (case["cert"] + 1) % 3, ""], [target[0], target[1], target[2], ""]], patch
         return [target], patch
 
@@ -136,13 +221,19 @@ class Scenarios(Family):
             asyncio.get_running_loop().set_exception_handler(lambda loop, ctx: None)
             tdb = TOFUDatabase(db)
             sit = case["situation"]
-            if sit == "pinned":
-                tdb.trust(HOSTS[target[0]], R.ports[target[1]], R.w["certs"].x509(CERTS[case["cert"]]))
-            elif sit == "changed-after-ok":
-                pass        # pinned below, by a real first connection of the same client object
-            elif self.prepinned_other(case):
-                # changed (and half of the unreadable) situations: the host is pinned to ANOTHER certificate
-                tdb.trust(HOSTS[target[0]], R.ports[target[1]], R.w["certs"].x509(CERTS[(case["cert"] + 1) % 3]))
+            pin = self.pin_id(case)
+            if pin is not None:
+                # "pinned": to the certificate that will be presented; changed / half of the unreadable ones: to ANOTHER one
+                via = case.get("pin_via", "trust")
+                if via == "trust":
+                    tdb.trust(HOSTS[target[0]], R.ports[target[1]], R.w["certs"].x509(CERTS[pin[0]]))
+                else:
+                    import tomli_w
+
+                    f = Path(tmp) / "import.toml"
+                    f.write_bytes(tomli_w.dumps({"hosts": {"e0": {"hostname": HOSTS[target[0]], "port": R.ports[target[1]], "fingerprint": R.fps[pin[1]],
+                                                                  "first_seen": "2026-01-01T00:00:00+00:00", "last_seen": "2026-01-01T00:00:00+00:00"}}}).encode())
+                    assert tdb.import_toml(f) == (1, 0, 0)
             client = GeminiClient(timeout=5.0, trust_on_first_use=case["tofu"], tofu_db_path=db if case["tofu"] else None)
             if sit == "changed-after-ok":
                 other = (case["cert"] + 1) % 3
@@ -152,6 +243,20 @@ class Scenarios(Family):
                     assert first[0] == "ok", first
                 else:
                     tdb.trust(HOSTS[target[0]], R.ports[target[1]], R.w["certs"].x509(CERTS[other]))
+            wk = self.warm_key(case)
+            if wk is not None:
+                # the same client object completes a verified request elsewhere, shown the certificate the target will show
+                wcert = case["cert"]
+                first, _ = await R.call(client, "get", [[wk[0], wk[1], wcert, ""]], path="/warm")
+                R.take_logs()
+                if case["tofu"]:
+                    assert first[0] == "ok", first
+                else:
+                    tdb.trust(HOSTS[wk[0]], R.ports[wk[1]], R.w["certs"].x509(CERTS[wcert]))
+            with store_fault(case.get("fault") if case["tofu"] else None, db):
+                return await main_call(client)
+
+        async def main_call(client):
             if case["op"] == "chain" and patch:
                 # the loader failure must hit the redirect target only: patch when the second connection is made
                 return await self.chain_with_patch(client, hops, patch, steps_for)
@@ -209,20 +314,27 @@ class Scenarios(Family):
         hops, patch = self.hops_of(case)
         t = hops[-1]
         sit = case["situation"]
-        store = "-"
-        if sit == "pinned":
-            store = f"{t[0]}.{t[1]}={CERT_FP[case['cert']]}"
-        elif self.prepinned_other(case):
-            store = f"{t[0]}.{t[1]}={(case['cert'] + 1) % 3}"
-        pres = "x" if (t[2] == 3 or patch) else str(CERT_FP[t[2]])
-        hop_s = f"{t[0]}.{t[1]}.{pres}"
+        rows = {}
+        pin = self.pin_id(case)
+        if pin is not None:
+            rows[(t[0], t[1])] = pin[1]
+        elif sit == "changed-after-ok":
+            rows[(t[0], t[1])] = CERT_FP[(case["cert"] + 1) % 3]
+        wk = self.warm_key(case)
+        if wk is not None:
+            rows[wk] = CERT_FP[case["cert"]]
+        store = ",".join(f"{k[0]}.{k[1]}={v}" for k, v in sorted(rows.items())) or "-"
+
+        def hop_s(i, h, p):
+            unverifiable = h[2] == 3 or p or self.hop_fault(case, i)
+            return f"{h[0]}.{h[1]}.{'x' if unverifiable else CERT_FP[h[2]]}"
+
         if case["op"] == "chain":
-            a = hops[0]
-            op = f"r:{a[0]}.{a[1]}.{a[2]}/{hop_s}"
+            op = f"r:{hop_s(0, hops[0], '')}/{hop_s(1, t, patch)}"
         elif case["op"] in ("upload", "delete"):
-            op = f"u:{hop_s}"
+            op = f"u:{hop_s(0, t, patch)}"
         else:
-            op = f"g:{hop_s}"
+            op = f"g:{hop_s(0, t, patch)}"
         return f"tofu {'on' if case['tofu'] else 'off'} {store} {op}"
 
     def expect(self, case, out):
@@ -236,6 +348,8 @@ class Scenarios(Family):
     def project(self, obs):
         r = obs["result"]
         kind = r[0] if r[0] in ("changed", "refused") else "accepted"
+        if r[0] == "err" and r[1] in ("OperationalError", "DatabaseError"):
+            kind = "refused"        # the pin store failed: the call ends with sqlite's exception
         return {"verified": kind == "accepted", "kind": kind, "sent": [p["len"] > 0 for p in obs["peers"]]}
 
     def same(self, expected, obs):
@@ -248,6 +362,14 @@ class Scenarios(Family):
             return None
         last = peers[-1]
         n_hops = 2 if case["op"] == "chain" else 1
+        if case["tofu"] and case.get("fault") in ("select", "locked"):
+            got = [p["len"] for p in peers]
+            if any(got):
+                return ("bytes-despite-store-fault", f"the pin store failed at lookup ({case['fault']}), so no certificate could be verified, yet the peers received "
+                                                     f"{got} application bytes, beginning {next(p['head'] for p in peers if p['len'])[:70]!r}")
+            if res[0] == "ok":
+                return ("unverified-peer-answered", f"pin store fault {case['fault']}: the call returned a response {res}")
+            return None
         if should_fail(case):
             if len(peers) == n_hops and last["len"] > 0:
                 return ("bytes-before-verification",
@@ -268,7 +390,8 @@ class Scenarios(Family):
         return None
 
     def key(self, case, obs):
-        return f"{'on' if case['tofu'] else 'off'} {case['situation']} {case['op']} {case['mode']} -> {obs['result'][0]} rx={[min(p['len'], 1) for p in obs['peers']]}"
+        dims = "".join(f" {k}={case[k]}" for k in ("warm", "pin_via", "fault") if case.get(k) and case.get(k) != "trust") + (" chain_same" if case.get("chain_same") and case["op"] == "chain" else "")
+        return f"{'on' if case['tofu'] else 'off'} {case['situation']} {case['op']} {case['mode'] if not dims else ''}{dims} -> {obs['result'][0]} rx={[min(p['len'], 1) for p in obs['peers']]}"
 
 
 FAMILIES = [Scenarios()]
